@@ -6,6 +6,7 @@ import (
 	"fmt"
 	"sort"
 	"strings"
+	"sync"
 	"testing"
 
 	conformancev1 "connectrpc.com/conformance/internal/gen/proto/go/connectrpc/conformance/v1"
@@ -17,7 +18,7 @@ import (
 // ---- C07: suite expansion vs the iff of the statement ----
 
 type vfC07Case struct {
-	Subset []int `json:"subset"` // if set: only these config cases (indexes modulo the number of cases) are used
+	Subset []int     `json:"subset"` // if set: only these config cases (indexes modulo the number of cases) are used
 	Suites []vfSuite `json:"suites"`
 	Cfg    vfCfg     `json:"cfg"`
 	Mode   int32     `json:"mode"`
@@ -205,6 +206,53 @@ func vfC07Check(c vfC07Case) error {
 			o, ok := other.testCases[name]
 			if !ok || !proto.Equal(tc, o) {
 				return verifkit.Violf("unstable", "permutation %q differs between repeated expansions", name)
+			}
+		}
+	}
+	// the same parsed suites expanded by several goroutines at once, each for a config case of its own (the pinned
+	// TestNewTestCaseLibrary shares its parsed suites between parallel subtests in the same way): every library carries
+	// its own case's markers
+	if len(cfgCases) >= 2 {
+		shared := map[string]*conformancev1.TestSuite{}
+		for k, v := range suites {
+			shared[k] = proto.Clone(v).(*conformancev1.TestSuite)
+		}
+		picks := []configCase{cfgCases[0], cfgCases[len(cfgCases)-1], cfgCases[len(cfgCases)/2]}
+		for round := 0; round < 8; round++ {
+			errs := make([]error, len(picks))
+			var wg sync.WaitGroup
+			start := make(chan struct{})
+			for g, pick := range picks {
+				wg.Add(1)
+				go func(g int, pick configCase) {
+					defer wg.Done()
+					<-start
+					l, err := newTestCaseLibrary(shared, []configCase{pick}, mode)
+					if err != nil {
+						return // nothing applies to this single case: fine
+					}
+					for name, tc := range l.testCases {
+						r := tc.Request
+						if r.HttpVersion != pick.Version || r.Protocol != pick.Protocol || r.Codec != pick.Codec || r.Compression != pick.Compression ||
+							(len(r.ServerTlsCert) > 0) != pick.UseTLS || (r.ClientTlsCreds != nil) != pick.UseTLSClientCerts {
+							errs[g] = verifkit.Violf("concurrent-request-markers", "expansions of the same parsed suites running at the same time: permutation %q of the library for config case %s carries %v/%v/%v/%v tls=%v", name, vfCaseStr(pick), r.HttpVersion, r.Protocol, r.Codec, r.Compression, len(r.ServerTlsCert) > 0)
+							return
+						}
+					}
+					for inst, cases := range l.casesByServer {
+						if len(cases) > 0 && (inst.protocol != pick.Protocol || inst.httpVersion != pick.Version || inst.useTLS != pick.UseTLS) {
+							errs[g] = verifkit.Violf("concurrent-grouping", "expansions running at the same time: the library for config case %s has a server group %+v", vfCaseStr(pick), inst)
+							return
+						}
+					}
+				}(g, pick)
+			}
+			close(start)
+			wg.Wait()
+			for _, e := range errs {
+				if e != nil {
+					return e
+				}
 			}
 		}
 	}
